@@ -56,9 +56,11 @@ CfgOf(ev) ==
 TBoot ==
   LET ev == Log[l] IN
   /\ ev.e = "boot"
-  /\ sts' = [sts EXCEPT ![ev.ifc] = InitState]
+  \* keep = 1: only the platform's view of the interface changed (addresses, MTU, names): nothing the responder
+  \* remembers is touched, every later reply is judged against the new attributes
+  /\ sts' = (IF ev.keep = 1 THEN sts ELSE [sts EXCEPT ![ev.ifc] = InitState])
   /\ cfgs' = [cfgs EXCEPT ![ev.ifc] = CfgOf(ev)]
-  /\ aux' = [aux EXCEPT ![ev.ifc] = NoAux]
+  /\ aux' = (IF ev.keep = 1 THEN aux ELSE [aux EXCEPT ![ev.ifc] = NoAux])
   /\ l' = l + 1
 
 TSkip ==
